@@ -113,6 +113,15 @@ def check_utterance(utterance, separator=Separator(), check_punctuation=True):
     return True
 
 
+def _is_valid(utterance, separator, check_punctuation):
+    """Returns True if `utterance` passes check_utterance, False otherwise"""
+    try:
+        return check_utterance(
+            utterance, separator, check_punctuation=check_punctuation)
+    except ValueError:
+        return False
+
+
 def prepare(text, separator=Separator(), unit='phone',
             check_punctuation=True, tolerant=False,
             log=utils.null_logger()):
@@ -299,6 +308,13 @@ def main():
 
     if args.gold:
         log.info('generating gold text to %s', args.gold)
+        if args.tolerant:
+            # the badly formatted utterances are absent from the prepared
+            # text, remove them from the gold as well to keep the two
+            # files aligned line by line
+            streamin = [
+                line for line in streamin if _is_valid(
+                    line.strip(), separator, not args.punctuation)]
         gold_text = gold(streamin, separator=separator)
         open(args.gold, 'w').write('\n'.join(gold_text) + '\n')
 
